@@ -225,10 +225,22 @@ static std::vector<Fault> positions(const Tree& t)
   return ps;
 }
 
+#ifdef BK_BYNAME
+// by-name lookup mode: the first invocation of a name on a sandbox goes through lookup_symbol and the backend's symbol lookup
+static void* c19_symtab(int, const char* name)
+{
+  if (!strcmp(name, "node")) return (void*)&guest_node;
+  return nullptr;
+}
+#endif
+
 int main(int argc, char** argv)
 {
   parse(argc, argv);
   bool thorough = has_flag("--thorough");
+#ifdef BK_BYNAME
+  mb::g_symtab = c19_symtab;
+#endif
   sbx_t A, B;
   A.create_sandbox(0);
   B.create_sandbox(1);
